@@ -358,6 +358,10 @@ func genRequestPath(routes []rm.Route) *rapid.Generator[string] {
 		r := rapid.SampledFrom(routes).Draw(t, "route")
 		var sb strings.Builder
 		for _, e := range r.Elems {
+			if rapid.IntRange(0, 11).Draw(t, "strayInBetween") == 0 {
+				// a segment that means something elsewhere (file systems, URLs) and is a segment like any other here
+				sb.WriteString("/" + rapid.SampledFrom([]string{".", ".", "..", "...", "%2F", "%2e", " ", "~", "-", "index.html"}).Draw(t, "straySegment"))
+			}
 			sb.WriteString(strings.Repeat("/", rapid.SampledFrom([]int{1, 1, 1, 1, 2, 3}).Draw(t, "slashes")))
 			switch e.Kind {
 			case rm.Lit:
@@ -367,7 +371,7 @@ func genRequestPath(routes []rm.Route) *rapid.Generator[string] {
 					sb.WriteString(e.Text)
 				}
 			case rm.Param:
-				sb.WriteString(rapid.SampledFrom([]string{"v", "a", "b", "42", ":x", "*", "", "é", "a b", "x.y", ":param", ":any", ":id", "get", "*x"}).Draw(t, "pval"))
+				sb.WriteString(rapid.SampledFrom([]string{"v", "a", "b", "42", ":x", "*", "", "é", "a b", "x.y", ":param", ":any", ":id", "get", "*x", ".", ".."}).Draw(t, "pval"))
 			case rm.Any:
 				k := rapid.IntRange(0, 4).Draw(t, "tail")
 				var parts []string
